@@ -4,7 +4,7 @@
    known q h = bits [0,8q] and [57,63] of h = what a bucket keeps next to an element of class q. *)
 From Coq Require Import ZArith List.
 From MomoCommon Require Import GenPrelude.
-From C12 Require Gen_Base Gen_O2 Gen_O2MP Gen_P4 Gen_One Known P4_Model P4_Slot P4_Bucket O2_Slot Chain O2_Bucket MP_Open2N2 TableO2 TableO2_Proofs TableP4 TableP4_Proofs TableOne TableOne_Proofs Refuted TableO2_Find SameCode Gen_O2set TableP4_Find Gen_P4A P4A_Refine Gen_P4A16 P4A_Refine16 Chains PtrState Gen_Ptr32 Gen_Ptr48 Gen_Ptr64 GensFind Gen_HSFind Gen_HSFindIn HSFind_Refine Gen_HSAdd Gen_HSReloc HSReloc_Refine Establish NoExn NoExnOne Gen_HSGrow.
+From C12 Require Gen_Base Gen_O2 Gen_O2MP Gen_P4 Gen_One Known P4_Model P4_Slot P4_Bucket O2_Slot Chain O2_Bucket MP_Open2N2 TableO2 TableO2_Proofs TableP4 TableP4_Proofs TableOne TableOne_Proofs Refuted TableO2_Find SameCode Gen_O2set TableP4_Find Gen_P4A P4A_Refine Gen_P4A16 P4A_Refine16 Chains PtrState Gen_Ptr32 Gen_Ptr48 Gen_Ptr64 GensFind Gen_HSFind Gen_HSFindIn HSFind_Refine Gen_HSAdd Gen_HSReloc HSReloc_Refine Establish NoExn NoExnOne Gen_HSGrow Gen_PolicyO2 CapBound.
 Import ListNotations.
 Local Open Scope Z_scope.
 
@@ -1359,3 +1359,26 @@ Theorem C12_open2n2_addgrow_migration_no_exception :
          exists r, TableO2.find_gens ((tnew', newL) :: rev gens') k (hash k) = Ok (Some r) /\ GensFind.gens_hit ((tnew', newL) :: rev gens') k r).
 Proof. exact NoExn.migrate_gens_after_growth_decision. Qed.
 Print Assumptions C12_open2n2_addgrow_migration_no_exception.
+
+(* the capacity policy of Open2N2 GENERATED (HashBucketOpen2N2<maxCount>::CalcCapacity, to which the default HashTraitsStd::CalcCapacity
+   delegates; double arithmetic read as exact rationals): the capacity never exceeds the number of slots *)
+Theorem C12_open2n2_capacity_policy_within_slots :
+  forall maxCount bc, 0 <= maxCount -> 0 <= bc -> 0 <= Gen_PolicyO2.CalcCapacity maxCount bc <= maxCount * bc.
+Proof. exact CapBound.calc_capacity_le_slots. Qed.
+Print Assumptions C12_open2n2_capacity_policy_within_slots.
+
+(* C12_open2n2_addgrow_migration_no_exception with the hypothesis CalcCapacity(bc, 3) <= 3 * bc DISCHARGED: the growth decision runs with
+   the generated capacity policy.  Remaining hypothesis: mCount (+1 for the element just added) bounds the elements of all generations. *)
+Theorem C12_open2n2_addgrow_migration_no_exception_generated_policy :
+  forall hash, (forall k, 0 <= hash k < 2 ^ 64) ->
+  forall fuel ht mc cap0 nl0 cap newL budget gens tnew calls, 0 <= newL <= 62 ->
+    Gen_HSGrow.pvAddGrow_loop0 3 (fun bc _ => Gen_PolicyO2.CalcCapacity 3 bc) fuel ht mc cap0 nl0 = Ok (None, (cap, newL)) ->
+    TableO2_Proofs.gens_ok hash newL gens -> TableO2_Proofs.Tinv hash newL tnew ->
+    NoExn.gtot gens + NoExn.tot (Z.to_nat (2 ^ newL)) tnew <= mc + 1 ->
+    exists gens' tnew' calls' thrown, TableO2.migrate_gens hash gens tnew newL budget calls = Ok (gens', tnew', calls', thrown) /\
+      TableO2_Proofs.gens_ok hash newL gens' /\ TableO2_Proofs.Tinv hash newL tnew' /\ (thrown = false -> gens' = []) /\
+      NoExn.gtot gens' + NoExn.tot (Z.to_nat (2 ^ newL)) tnew' = NoExn.gtot gens + NoExn.tot (Z.to_nat (2 ^ newL)) tnew /\
+      (forall k, TableO2_Proofs.in_gens gens k \/ TableO2_Proofs.Present newL tnew k ->
+         exists r, TableO2.find_gens ((tnew', newL) :: rev gens') k (hash k) = Ok (Some r) /\ GensFind.gens_hit ((tnew', newL) :: rev gens') k r).
+Proof. exact NoExn.migrate_gens_after_growth_decision_o2. Qed.
+Print Assumptions C12_open2n2_addgrow_migration_no_exception_generated_policy.
